@@ -334,6 +334,10 @@ PRELUDE_TRUST = [
 ]
 
 EXTRA_TRUST = {
+    'C13': ['contracts/verus/hdr_find.rs: core`s `<[u8]>::windows(4)` + `Iterator::position(pred)` is `evaluate pred on S[i..i+4] for i = 0, 1, .. while i + 4 <= S.len(), return the first accepted i` (TRUSTED statement about the standard library; the loop itself, Windows4::position, is verified)',
+            'le_u32(x) = u32::from_le_bytes(x.try_into().unwrap()): external_body primitive, requires x.len() == 4 (proved at both call sites: total mode), ensures the little-endian value (checked on compiled code by k_mb2hdr_find_header_small)',
+            'vstd specifications of usize::min, <[T]>::get(Range), Option::{map, ok_or, and_then}, usize::checked_add, u32 -> usize try_into, the ? operator',
+            'the returned sub-slice is specified by contents and length; its address identity is checked by Kani (bounded) and the native stand-in only'],
     'C04': [FIND_TRUST, 'prelude: assume_specification of Option::map_or_else (None -> default(), Some(x) -> f(x))'],
     'C11': [FIND_TRUST, 'derive(PartialEq) on the field-less enum HeaderTagType is equality of variants (PartialEqSpecImpl written in hdr_core.rs)'],
     'C14': ['DynSizedStructure::{header,payload} field projections are external_body in V (address facts of &self.field); proved on compiled code by k_dyn_layout / k_ref_from_slice',
@@ -369,7 +373,7 @@ def assumptions(pid):
 # ---------------------------------------------------------------------------
 NOT_APPLICABLE = {}
 
-for _pid, _lvl in (('C13', 'other'), ('C16', 'other'), ('C17', 'other')):
+for _pid, _lvl in (('C13', 'proof'), ('C16', 'other'), ('C17', 'other')):
     PROPS.setdefault(_pid, dict(v=[], k_quick=[], k_thorough=[]))['level'] = _lvl
 # C16: new_boxed / clone_dyn are generic over the structure kind; what they produce for a kind is
 # determined by that kind's Header::{set_size,payload_len,total_size} and MaybeDynSized::{BASE_SIZE,dst_len}
@@ -427,7 +431,8 @@ PROPS['C11']['v'] = [('u_hdr_core', ['Multiboot2Header::iter', 'Multiboot2Header
                                         'Multiboot2Header::module_align_tag', 'Multiboot2Header::efi_boot_services_tag', 'Multiboot2Header::relocatable_tag',
                                         'HeaderTagHeader::typ', 'tagiter_find', 'tagiter_find_owned', 'TagIter::next', 'DynSizedStructure::cast',
                                         '*HeaderTag::dst_len', 'HeaderTagHeader::payload_len', 'DynSizedStructure::ref_from_slice', 'DynSizedStructure::ref_from_bytes'])]
-PROPS['C13']['explanation'] = 'Bounded contract check: Kani explores the real find_header on every buffer length 0..=48 and every content (unwinding assertions on) against the oracle transcribed from the statement (first occurrence of the little-endian magic, alignment, truncation, returned sub-slice identical in address and length; total: any panic is a failure). The 8192-byte search-window clause is out of reach of both verifiers (unwinding 8189 window iterations in CBMC; Iterator::position cannot be specified in this Verus): for that clause a BOUNDED NATIVE stand-in runs the real function on 1464 enumerated cases around the limit (labelled bounded-native, never counted as proved).'
+PROPS['C13']['v'] = [('u_hdr_core', ['Multiboot2Header::find_header', 'Windows4::position', 'vwindows', 'lemma_magic_at_plain'])]
+PROPS['C13']['explanation'] = 'Proof: Verus verifies the real find_header in TOTAL mode (no panic site may be reachable) for ALL buffer lengths and contents against the statement: misaligned buffer -> WrongAlignment; `no header` iff the little-endian magic does not occur in the first min(len, 8192) bytes; with i the first occurrence: an error when i is not a multiple of 8, when the length word lies outside the buffer, or when i + stored length exceeds the buffer, otherwise i together with a sub-slice whose contents are exactly buffer[i .. i + stored length]. Three pieces of the body are outside this Verus and are replaced by logged rewrites (contracts/verus/hdr_find.rs): `windows(4)` / `position` -> a glue struct whose `position` is a VERIFIED loop over the windows (that core`s windows(4).position(p) is this loop is trusted), `u32::from_le_bytes(x.try_into().unwrap())` -> the trusted primitive le_u32 whose precondition `x.len() == 4` is the no-panic condition of the unwrap and is proved at both call sites, closures get annotated headers with verbatim bodies; min / get(range) / map / ok_or / ? / try_into / checked_add / and_then are verified against vstd`s specifications. Cross-checks on compiled code (bounded, labelled): Kani explores the real function on every buffer length 0..=48 and every content against the same oracle INCLUDING the address identity of the returned sub-slice (which the Verus contract does not state: vstd specifies slice::get by contents only), and a native stand-in runs it on 1464 cases around the 8192-byte window limit.'
 PROPS['C16']['explanation'] = 'Clone clause: proof -- Verus verifies the verbatim clone_dyn generically for every structure kind and ALL sizes (same header, same padded size, same bytes up to the declared size) from the contract of new_boxed and the proved contracts of header() / payload() / payload_len; the per-kind set_size / dst_len / BASE_SIZE implementations are proved too. Construction clause: bounded contract check -- Kani verifies new_boxed on the compiled code for 0..=3 content slices of 0..=5 symbolic bytes each (header size field = 8 + total, header || content without gaps, size_of_val = total rounded up to 8, 8-aligned allocation, Kani`s allocator model checks that Box drop deallocates with the allocation`s layout) and clone_dyn for every declared size 8..=17 (every padding residue): same declared size, same bytes. This contract is what C06/C07/C12 assume in Verus.'
 PROPS['C17']['explanation'] = 'Extent ("never looks past the declared size") follows from the proved dst_len contracts of C05 (Verus, all sizes). String semantics are core-library loops outside Verus: Kani checks parse_slice_as_string for EVERY byte string of length 0..=6 (all 256 values per position) against an independent UTF-8 validator and first-NUL oracle, and the three string-tag constructors / parsers for bounded lengths (every padding residue, NUL in padding or next tag => MissingNul).'
 
@@ -438,8 +443,8 @@ MANIFEST_TEXT = {
     ),
     'C13': dict(
         text=PROPS['C13']['explanation'],
-        note='Level: bounded contract check, not a proof. Undecided clause: the 8192-byte window limit (stated blind spot).',
-        technique='bounded contract check with Kani (unwinding assertions) on the real function',
+        note='Level: proof (Verus, all lengths, total) of everything in the statement except the address identity of the returned sub-slice, which is bounded (Kani, buffers <= 48 bytes; native stand-in around the window limit). Trusted: the windows/position glue equivalence, le_u32 (little-endian decoding; checked by Kani on compiled code), vstd`s std specifications, ALIGNMENT resolves to multiboot2_common::ALIGNMENT (a shadowing constant in header.rs is seen by Kani / the stand-in only).',
+        technique='contract-based deductive verification (Verus, unbounded, total mode) of the real function with logged rewrites of iterator adapters; bounded Kani contract check and native stand-in as cross-checks on compiled code',
     ),
     'C16': dict(
         text=PROPS['C16']['explanation'],
